@@ -464,3 +464,53 @@ func driveCases(c *runner.Cfg, res *report.Result, sc *sg.Scratch, cases []c05ca
 	}
 	res.Observe("declared_kinds_driven", kinds)
 }
+
+// prepareSets generates, compiles-to-Go and describes nsets schema sets (no regeneration comparison).
+func prepareSets(c *runner.Cfg, res *report.Result, sc *sg.Scratch, stream string, nsets int, pfx string) []c05case {
+	var mu sync.Mutex
+	var cases []c05case
+	c.Cases(stream, nsets, func(idx int, _ *journal.Slot) {
+		r := rng.New(c.Seed, stream, uint64(idx))
+		s := sg.Generate(r, sg.GenCfg{Pkgs: 1 + r.Intn(3), Tag: "base", GoRoot: "verifscratch/base", Services: false, MaxFields: 10, ValueBias: true})
+		dir := fmt.Sprintf("c%d", idx)
+		retag(s, dir)
+		if err := sc.WriteSchema(s, nil); err != nil {
+			res.Inconcl("write schema: %v", err)
+			return
+		}
+		gerr, hung := generateAll(sc, s, true)
+		if hung || gerr != nil {
+			res.Inconcl("schema set %d was not generated (C14 judges this): hung=%v err=%v", idx, hung, gerr)
+			sc.RemoveCase(dir)
+			return
+		}
+		if cs := describeCase(sc, s, dir, idx, "", nil); cs != nil {
+			mu.Lock()
+			cases = append(cases, *cs)
+			mu.Unlock()
+		}
+	}, func(idx int, p any, stack string) {
+		res.Violate(pfx+":harness-panic", fmt.Sprintf("panic: %v", p), runner.TrimStack(stack))
+	})
+	return cases
+}
+
+// C02gen: the read entry points emitted by the generator (struct/enum decoders, message readers and
+// every accessor reachable from them) on hostile input next to guard pages.
+func C02gen(c *runner.Cfg) *report.Result {
+	res := report.New("C02", "")
+	res.Rule = "generated code: for every struct, enum and message of seeded schema sets, valid encodings of seeded values are corrupted (structure bytes at the end, sizes, truncation from both ends, header behind too little data, random splices, empty input) and placed at both ends of a guarded mapping; Decode<X>/Open<X> of structs and enums, Parse<X>/Open<X>Err/Open<X> of messages and every accessor, Has<Field>, typed list Len/Get/GetErr (indexes below Len: an index beyond Len panics by documented contract, like a slice) and nested message reachable from their results must return normally, report 0 <= n <= len(input) and only return views inside the input; a panic, a guard-page fault or an out-of-range size is a violation; non-trivial / distinct = distinct corrupted inputs"
+	sc, err := newScratch()
+	if err != nil {
+		res.Inconcl("scratch module: %v", err)
+		return res
+	}
+	defer sc.Remove()
+	if err := sc.AddHarness(env("VERIF_HARNESS_DIR", "/verif/harness")); err != nil {
+		res.Inconcl("scratch module: %v", err)
+		return res
+	}
+	cases := prepareSets(c, res, sc, "C02/schema", c.N(8, 120), "c02")
+	driveCases(c, res, sc, cases, c.N(40, 150), "hostile", "c02")
+	return res
+}
